@@ -303,6 +303,7 @@ func genHnCase(r *rng, maxOps int, wantRegime bool) hnCase {
 
 // corpus: the two hand-over histories found on the code before the fix (entry point nil with items left; dead entry)
 func hnCorpus() []hnCase {
+	var extra []hnCase
 	ids := []string{"00000000-0000-4000-8000-000000000001", "00000000-0000-4000-8000-000000000002", "00000000-0000-4000-8000-000000000003",
 		"00000000-0000-4000-8000-000000000004", "00000000-0000-4000-8000-000000000005"}
 	vs := [][]uint32{{f32bits(0)}, {f32bits(1)}, {f32bits(2)}, {f32bits(3)}, {f32bits(0.4)}, {f32bits(0.1)}}
@@ -316,7 +317,19 @@ func hnCorpus() []hnCase {
 		c.Ops = append(c.Ops, hnOp{Op: "remove", Id: ids[i]}, hnOp{Op: "search", Vec: 5, K: 3})
 	}
 	c.Ops = append(c.Ops, hnOp{Op: "insert", Id: ids[0], Vec: 0, Level: 1}, hnOp{Op: "search", Vec: 5, K: 5}, hnOp{Op: "reload"}, hnOp{Op: "search", Vec: 5, K: 5})
-	return []hnCase{c}
+	// a dangling link: pruning dropped Y->X while X (the entry point) keeps X->Y; Y is removed, then X: the hand-over
+	// must not pick the tombstoned Y (points 0, 10, 11, 9 on a line, M = 1)
+	vs2 := [][]uint32{{f32bits(0)}, {f32bits(10)}, {f32bits(11)}, {f32bits(9)}, {f32bits(10.2)}}
+	for _, m := range []int{1, 16} {
+		c2 := hnCase{Dim: 1, Cfg: hnCfg{M: m, MMax: m, MMax0: 2 * m, Ef: 100, EfC: 100, Keep: true, Space: "euclidean"}, Vecs: vs2, Regime: false, Note: "hand-over over a dangling link"}
+		for i := 0; i < 4; i++ {
+			c2.Ops = append(c2.Ops, hnOp{Op: "insert", Id: ids[i], Vec: i, Level: 0})
+		}
+		c2.Ops = append(c2.Ops, hnOp{Op: "remove", Id: ids[1]}, hnOp{Op: "search", Vec: 4, K: 1}, hnOp{Op: "remove", Id: ids[0]}, hnOp{Op: "search", Vec: 4, K: 1}, hnOp{Op: "search", Vec: 4, K: 3})
+		c = append([]hnCase{c}, c2)[0]
+		extra = append(extra, c2)
+	}
+	return append([]hnCase{c}, extra...)
 }
 
 func runC01(a *args) error {
